@@ -403,6 +403,26 @@ def r10(p, rep):
             rep.add("C12.R10", key, es.loc, ok, f"str({c.name}) is not a single group; Ellipsis.__str__ wraps it" if ok else f"str({c.name}) is not a single group and Ellipsis.__str__ prints it bare: an ellipsis whose operand is itself an {c.name} prints as e.g. 'a......', which does not re-parse - einx.sum('[a...]...', x) raises a SyntaxError about text the caller never wrote")
 
 
+def _lit_rejected(p, f, at, name, lit, depth=0):
+    """is `at` (a node of function f) reached only when `lit not in <name>` holds - by a dominating raise-guard, a
+    checking helper, or (for a private helper that receives the string as parameter) at every call site"""
+    cfg = CFG(f.node)
+    for t, pol in cfg.guards_of_ast(at):
+        if isinstance(t, ast.Compare) and len(t.ops) == 1 and isinstance(t.left, ast.Constant) and t.left.value == lit and isinstance(t.comparators[0], ast.Name) and t.comparators[0].id == name:
+            if (isinstance(t.ops[0], ast.In) and not pol) or (isinstance(t.ops[0], ast.NotIn) and pol):
+                return True
+    if depth < 2 and name in f.params and f.parent is None and f.cls is None and f.name.startswith("_"):
+        sites = [(g, cc) for g in p.funcs.values() if g.module is f.module and g is not f for cc in walk_no_nested(g.node) if isinstance(cc, ast.Call) and resolve_callee(p, cc, g.module) == ("func", f)]
+        if sites:
+            ok = True
+            for g, cc in sites:
+                i = f.params.index(name)
+                arg = cc.args[i] if i < len(cc.args) else next((k.value for k in cc.keywords if k.arg == name), None)
+                ok = ok and isinstance(arg, ast.Name) and _lit_rejected(p, g, cc, arg.id, lit, depth + 1)
+            return ok
+    return False
+
+
 def r11(p, rep):
     rep.rule("C12.R11", "the text that is parsed as the caller's description is the caller's own string (errors then quote what the caller wrote)", "T-DER (first argument of the description parser at every entry point)", floor=2)
     targets = {p.func("_parse_op", "adapter.einx_from_namedtensor")}
@@ -424,15 +444,10 @@ def r11(p, rep):
             # that notation (otherwise errors point at text einx added itself)
             lits = [x.value for x in ast.walk(a0) if isinstance(x, ast.Constant) and isinstance(x.value, str) and x.value.strip()] if not plain else []
             for lit in {l.strip() for l in lits}:
-                cfg11 = CFG(f.node)
-                guarded = False
-                for st in walk_no_nested(f.node):
-                    if isinstance(st, ast.If) and block_always_raises(st.body) and cfg11.node_for(st) is not None and cfg11.node_for(c) is not None and cfg11.dominates(cfg11.node_for(st), cfg11.node_for(c)):
-                        t = st.test
-                        if isinstance(t, ast.Compare) and len(t.ops) == 1 and isinstance(t.ops[0], ast.In) and isinstance(t.left, ast.Constant) and t.left.value == lit and isinstance(t.comparators[0], ast.Name) and t.comparators[0].id in ({x.id for x in ast.walk(a0) if isinstance(x, ast.Name)} & set(f.params)):
-                            guarded = True
-                rep.add("C12.R11", f"{f.qualname}:{r[1].name}:appended({lit}):guard", f"{f.module.rel}:{c.lineno}", guarded, f"a description that already contains {lit!r} is rejected (quoting the caller's string) before {lit!r} is appended" if guarded else f"einx appends {lit!r} to the description without first rejecting descriptions that contain {lit!r} themselves: the parser then complains about the {lit!r} einx added (marker under text the caller never wrote)")
-            rep.add("C12.R11", f"{f.qualname}:{r[1].name}:description", f"{f.module.rel}:{c.lineno}", plain, f"`{norm(a0)}` is the caller's description, unchanged" if plain else f"`{norm(a0)[:50]}` is parsed in place of the caller's description: syntax errors quote text the caller never wrote (einx.solve_shapes('a (', x) reports the expression \"a ( ->\")")
+                pnames = {x.id for x in ast.walk(a0) if isinstance(x, ast.Name)} & set(f.params)
+                guarded = bool(pnames) and all(_lit_rejected(p, f, c, pn, lit) for pn in pnames)
+                rep.add("C12.R11", f"{f.module.name}:{r[1].name}:appended({lit}):guard", f"{f.module.rel}:{c.lineno}", guarded, f"a description that already contains {lit!r} is rejected (quoting the caller's string) before {lit!r} is appended" if guarded else f"einx appends {lit!r} to the description without first rejecting descriptions that contain {lit!r} themselves: the parser then complains about the {lit!r} einx added (marker under text the caller never wrote)")
+            rep.add("C12.R11", f"{f.module.name}:{r[1].name}:description", f"{f.module.rel}:{c.lineno}", plain, f"`{norm(a0)}` is the caller's description, unchanged" if plain else f"`{norm(a0)[:50]}` is parsed in place of the caller's description: syntax errors quote text the caller never wrote (einx.solve_shapes('a (', x) reports the expression \"a ( ->\")")
     if n < 2:
         raise AnalysisError(f"unrecognised idiom: expected >= 2 call sites of _parse_op, found {n}")
 
@@ -467,6 +482,41 @@ def r12(p, rep):
             facts = cfg.guards_of_ast(call)
             ok = any(isinstance(t, ast.Compare) and len(t.ops) == 1 and norm(t.left) in (f"{node}.begin_pos", f"{node}.end_pos") and ((isinstance(t.ops[0], (ast.GtE, ast.Gt)) and pol) or (isinstance(t.ops[0], (ast.Lt, ast.LtE)) and not pol)) for t, pol in facts)
             rep.add("C12.R12", f"{f.qualname}:positions({norm(a)[:40]})", f"{f.module.rel}:{call.lineno}", ok, f"`{norm(a)[:50]}` is computed only when {node}.begin_pos >= 0" if ok else f"`{norm(a)[:60]}` is computed for every node, including synthesised ones whose positions are -1: the positions become negative and the assert of the error constructor fires - the caller gets a bare AssertionError instead of the documented RankError / SemanticError")
+        # higher-order form: self._collect(exprs, is_match, lambda node: <positions of node>): the predicate handed to
+        # the same call decides for which nodes the positions are computed
+        from sa.cfg import decompose
+
+        for call in walk_no_nested(f.node):
+            if not isinstance(call, ast.Call):
+                continue
+            lams = [a for a in call.args if isinstance(a, ast.Lambda) and len(a.args.args) == 1]
+            for lam in lams:
+                prm = lam.args.args[0].arg
+                a = lam.body
+                if not any(isinstance(x, ast.Attribute) and x.attr in ("begin_pos", "end_pos") and norm(x.value) == prm for x in ast.walk(a)):
+                    continue
+                plain = isinstance(a, ast.Call) and norm(a.func) == "range" and len(a.args) == 2 and all(isinstance(x, ast.Attribute) and x.attr == w for x, w in zip(a.args, ("begin_pos", "end_pos")))
+                if plain:
+                    continue
+                n += 1
+                ok = False
+                for other in call.args:
+                    pred = None
+                    if isinstance(other, ast.Lambda) and other is not lam and len(other.args.args) == 1:
+                        pred = (other.args.args[0].arg, other.body)
+                    elif isinstance(other, ast.Name):
+                        g = next((x for x in walk_no_nested(f.node) if isinstance(x, ast.FunctionDef) and x.name == other.id and len(x.args.args) == 1), None)
+                        if g is not None:
+                            rets = [r.value for r in ast.walk(g) if isinstance(r, ast.Return) and r.value is not None]
+                            if len(rets) == 1:
+                                pred = (g.args.args[0].arg, rets[0])
+                    if pred is None:
+                        continue
+                    q, body = pred
+                    for t, pol in decompose(body, True):
+                        if pol and isinstance(t, ast.Compare) and len(t.ops) == 1 and norm(t.left) in (f"{q}.begin_pos", f"{q}.end_pos") and isinstance(t.ops[0], (ast.GtE, ast.Gt)):
+                            ok = True
+                rep.add("C12.R12", f"{f.qualname}:positions({norm(a)[:40]})", f"{f.module.rel}:{call.lineno}", ok, f"`{norm(a)[:50]}` is computed only for nodes accepted by a predicate that requires begin_pos >= 0" if ok else f"`{norm(a)[:60]}` is computed for every matching node, including synthesised ones whose positions are -1 (negative positions trip the assert of the error constructor)")
     if n == 0:
         raise AnalysisError("unrecognised idiom: no position arithmetic found in ExpressionIndicator.get_pos_for_*")
 
